@@ -2,10 +2,10 @@
    Full statement:
      forall T v b, X690.read T b = Some (abs T v, []) ->
        exists v', decode BER (Some T) b = Ok (DV T v', []) /\ abs T v' = abs T v.
-   Proved (C09_all_forms, at the end of this file) for every type without CHOICE/ANY, with two
+   Proved (C09_all_forms, at the end of this file) for the whole type universe, with three
    side conditions each of which marks a real disagreement between library and X.690 reader. *)
 From PV Require Import Base.Bytes Model.Tag Model.Types Model.TableTypes Model.Dec Spec.X690 Gen.Tables
-     Proofs.TagOctets Proofs.BerForms Proofs.BerAllForms.
+     Proofs.TagOctets Proofs.BerForms Proofs.BerAllForms2.
 Local Open Scope N_scope.
 
 (* identifier octets of every class, form and number are read back (short and long form) *)
@@ -40,17 +40,19 @@ Proof. vm_compute. reflexivity. Qed.
    and OPTIONAL components present or absent - the library's BER decoder accepts, with the same
    abstract value and the same remainder.  frag: every simple type, the character string types the
    model covers, SEQUENCE OF, SET OF, SEQUENCE and SET with mandatory/OPTIONAL/DEFAULT components
-   (distinct tags as X.680 requires), IMPLICIT/EXPLICIT tagging, to any depth; not yet CHOICE and ANY.
-   The two side conditions are the places where library and reader genuinely differ: a binary REAL
+   (distinct tags as X.680 requires), CHOICE (nested, tagged or not), ANY (untagged where the guiding
+   spec is the type itself, or under EXPLICIT tags), IMPLICIT/EXPLICIT tagging, to any depth.
+   The three side conditions are the places where library and reader genuinely differ: a binary REAL
    without mantissa octets (the reader is lax), octets above 7F in an ASCII-repertoire string type (the
-   library checks the repertoire, X.690 does not).  A third one - a definite-length constructed
+   library checks the repertoire, X.690 does not), and a node tagged UNIVERSAL 0 inside an ANY (the
+   library reserves that tag for end-of-contents).  A third one - a definite-length constructed
    BIT STRING with no segments, 23 00 - was a defect of the library (finding F54), found by this
    proof, repaired, and the condition removed. *)
 Theorem C09_all_forms : forall T b a tl,
   frag T = true -> wf_bytes b = true -> N.of_nat (length b) <= index_max ->
   X690.read T b = Some (a, tl) ->
   (forall n r, parse b = Some (n, r) ->
-     real_mantissas_present T n = true /\ ascii_strings_ascii T n = true) ->
+     real_mantissas_present T n = true /\ ascii_strings_ascii T n = true /\ any_without_tag_zero T n = true) ->
   exists v, decode BER (Some T) b = Ok (DV T v, tl) /\ abs T v = a.
 Proof. exact ber_all_forms. Qed.
 Print Assumptions C09_all_forms.
@@ -63,17 +65,11 @@ Theorem C09_all_forms_unconditional : forall T b a tl,
 Proof. exact ber_all_forms_unconditional. Qed.
 Print Assumptions C09_all_forms_unconditional.
 
-Example C09_all_forms_nonvacuous :
-  frag ex_T = true /\ wf_bytes ex_b = true /\ N.of_nat (length ex_b) <= index_max
-  /\ X690.read ex_T ex_b
-     = Some (ARec [Some (AInt 5); None; Some (ABool true); Some (ABits ex_bits); Some (AList [AOcts [200]]);
-                   Some (ARec [Some (ABool true); Some (AOid [1; 2; 3]); Some (AInt 7); Some (AReal (ABin 5 (-1)))])], [9; 9])
-  /\ (forall n r, parse ex_b = Some (n, r) ->
-        real_mantissas_present ex_T n = true /\ ascii_strings_ascii ex_T n = true)
-  /\ decode BER (Some ex_T) ex_b
-     = Ok (DV ex_T (VRec [Some (VInt 5); None; None; Some (VBits ex_bits); Some (VList [VOcts [200]]);
-                          Some (VRec [Some (VBool true); Some (VOid [1; 2; 3]); None; Some (VReal (RBin 5 (-1)))])]), [9; 9]).
-Proof. exact ber_all_forms_nonvacuous. Qed.
+(* non-vacuity: Proofs/BerAllForms2.v, Example ber_all_forms_nonvacuous - one input mixing indefinite and
+   definite lengths, long-form and over-long lengths, a long-form tag number, a nested segmented BIT STRING
+   under an IMPLICIT tag, OPTIONAL/DEFAULT absent, SET out of order, TRUE as 07, a binary REAL, nested
+   CHOICEs, an untagged ANY holding an indefinite-length SEQUENCE, trailing octets *)
+Check ber_all_forms_nonvacuous.
 
 (* the empty bit string in constructed form, no segments at all or empty nested ones (was finding F54) *)
 Example C09_empty_constructed_bit_string :
